@@ -115,8 +115,8 @@ def r3(ctx: Ctx) -> None:
     g = ctx.func("IndexMarket.setup")
     for p in normal_paths(ctx.paths(g.qualname)):
         for l in loops(p):
-            ok = key(strip_ver(l.iter)) == "settings['markets']"
-            ctx.check(ok, g, l.node, "components are taken from the configured list, in its order", "for name in settings['markets']", short(l.iter))
+            ok = any(key(x) == "settings['markets']" for x in subterms(strip_ver(l.iter)))
+            ctx.check(ok, g, l.node, "components are taken from the configured list", "for name in settings['markets']", short(l.iter))
         break
 
 
